@@ -20,6 +20,7 @@ def summary(arr):
         val = np.asarray(arr.compute(scheduler="sync"))
     return {"name": arr.name, "keys": hashlib.sha1("|".join(keys).encode()).hexdigest(),
             "graph_keys": hashlib.sha1("|".join(gkeys).encode()).hexdigest(), "n_graph_keys": len(gkeys),
+            "_layers": sorted({str(k[0]) if isinstance(k, tuple) else str(k) for k in arr.__dask_graph__()}),
             "chunks": repr(arr.chunks), "dtype": str(arr.dtype),
             "value": hashlib.sha1(np.ascontiguousarray(val).tobytes()).hexdigest() + str(val.shape)}
 
@@ -28,10 +29,15 @@ def main():
     import dask_array as da
     out = {}
     for path in sys.argv[1:]:
-        prog, sources = progs.load_case(path)
         try:
             with warnings.catch_warnings():
                 warnings.simplefilter("ignore")
+                if path.endswith(".pkl"):       # a collection pickled by the parent process
+                    import cloudpickle
+                    with open(path, "rb") as f:
+                        out[path] = summary(cloudpickle.load(f))
+                    continue
+                prog, sources = progs.load_case(path)
                 out[path] = summary(progs.build(prog, da, sources, memo={}))
         except Exception as e:  # noqa: BLE001
             out[path] = {"error": type(e).__name__}
